@@ -3,13 +3,13 @@
 ID=$1; M=$2; OUT=$3; R=${R:-2}; WT=/tmp/wt${R}_$ID; SD=/tmp/seed${R}_$ID/$M
 export PYTHONPATH=$WT/feems:$WT/machinery-system-structure:$WT/RunFEEMSSim PYTHONDONTWRITEBYTECODE=1 PYTHONHASHSEED=0
 git -C $WT checkout -q -- . || exit 2
-( cd $SD && timeout 300 /venv/bin/python demo.py >/tmp/cs2_clean_$ID.out 2>&1 ); CLEAN=$?
+( cd $SD && timeout 300 /venv/bin/python demo.py >/tmp/cs2_clean_${ID}_$M.out 2>&1 ); CLEAN=$?
 git -C $WT apply $SD/patch.diff || { echo "patch does not apply"; exit 2; }
-( cd $SD && timeout 300 /venv/bin/python demo.py >/tmp/cs2_mut_$ID.out 2>&1 ); MUT=$?
-( cd $WT && timeout 900 /venv/bin/python -m pytest -q -p no:cacheprovider --timeout=900 --deselect feems/tests/test_node.py::TestShaftLine::test_shaft_line >/tmp/cs2_tests_$ID.out 2>&1 ); TESTS=$?
+( cd $SD && timeout 300 /venv/bin/python demo.py >/tmp/cs2_mut_${ID}_$M.out 2>&1 ); MUT=$?
+( cd $WT && timeout 900 /venv/bin/python -m pytest -q -p no:cacheprovider --timeout=900 --deselect feems/tests/test_node.py::TestShaftLine::test_shaft_line >/tmp/cs2_tests_${ID}_$M.out 2>&1 ); TESTS=$?
 git -C $WT checkout -q -- .
-echo "$ID $M demo_clean=$CLEAN demo_mutant=$MUT tests_with_mutant=$TESTS ($(tail -1 /tmp/cs2_tests_$ID.out))"
+echo "$ID $M demo_clean=$CLEAN demo_mutant=$MUT tests_with_mutant=$TESTS ($(tail -1 /tmp/cs2_tests_${ID}_$M.out))"
 if [ $CLEAN = 0 ] && [ $MUT = 1 ] && [ $TESTS = 0 ]; then
   D=/verif/seeded/${ID}_$OUT; mkdir -p $D; cp $SD/patch.diff $SD/demo.py $D/; cp $SD/notes.md $D/notes.md 2>/dev/null
   echo CONFIRMED
-else echo NOT-CONFIRMED; tail -5 /tmp/cs2_mut_$ID.out; fi
+else echo NOT-CONFIRMED; tail -5 /tmp/cs2_mut_${ID}_$M.out; fi
